@@ -961,7 +961,7 @@ func c20RunOracle(args []string) int {
 			reported[class]++
 			st, vv := steps, v
 			if shrink && !*noShrink && class != "sequence-aborted" {
-				st = c20Shrink(sc, limit, steps, class, 30)
+				st = c20Shrink(sc, limit, steps, class, 64)
 				if _, v2, err := c20RunSequence(sc, limit, st, nil, 0); err == nil && v2 != nil && v2.has(class) {
 					vv = v2
 				} else {
